@@ -375,7 +375,7 @@ func c18Template(c *fw.Ctx, seq []int) {
 
 // ---- collections against an ordered-list model
 
-var c18Ops = []string{"Add(a)", "Add(A)", "Add(b)", "Locate(a)", "Locate(A)", "Locate(b)", "RemoveByName(a)", "RemoveByName(A)", "RemoveByName(b)", "Remove(0)", "Remove(1)", "Clear()", "ClearValues()"}
+var c18Ops = []string{"Add(a)", "Add(A)", "Add(b)", "Locate(a)", "Locate(A)", "Locate(b)", "RemoveByName(a)", "RemoveByName(A)", "RemoveByName(b)", "Remove(0)", "Remove(1)", "Clear()", "ClearValues()", "Get(0).Value().SetAsInteger(n)", "Get(last).Value().SetAsInteger(n)"}
 
 type c18Ent struct {
 	name string
@@ -480,6 +480,18 @@ func c18Collections(c *fw.Ctx, h []int, isFunc bool) {
 				for i := range model {
 					model[i].id = 0
 				}
+			case op == 13 || op == 14:
+				// the caller writes in place into the value object of one entry: only that entry changes
+				if isFunc || len(model) == 0 {
+					applicable = false
+					return
+				}
+				i := 0
+				if op == 14 {
+					i = len(model) - 1
+				}
+				vc.Get(i).Value().SetAsInteger(1000 + step)
+				model[i].id = 1000 + step
 			}
 		})
 		if !applicable {
@@ -566,7 +578,7 @@ func init() {
 		ID:    "C18",
 		Level: "model_checking",
 		Rule: "(a) expression trees with identifiers from {a, A, b, \"a b\", Max, \"Max\", if} in every syntactic position (operand, call argument, call name, index, next to equal string constants), 4 printing styles: VariableNames() vs the variable leaves in order of first occurrence; automatic variables with three pre-populations of the default collection, and the same through the CreateVariables entry point on a caller's collection with automatic variables off; automatic variables off => VAR_NOT_FOUND/FUNC_NOT_FOUND naming the identifier; every call expression with an explicit empty function collection => FUNC_NOT_FOUND; " +
-			"(b) every sequence of <=3 (thorough 4) template pieces (all section spellings, text containing the words if/unless): MustacheParser.VariableNames(), default-variable creation and CreateVariables on a caller's map; (c) every history up to the depth bound over 13 operations on VariableCollection and FunctionCollection against an ordered-list model (first match wins, case-insensitive); non-trivial = >=2 variables / histories of >=2 steps",
+			"(b) every sequence of <=3 (thorough 4) template pieces (all section spellings, text containing the words if/unless): MustacheParser.VariableNames(), default-variable creation and CreateVariables on a caller's map; (c) every history up to the depth bound over 15 operations (incl. a caller writing in place into the value object of the first / last entry) on VariableCollection and FunctionCollection against an ordered-list model (first match wins, case-insensitive); non-trivial = >=2 variables / histories of >=2 steps",
 		Assume: []string{"names differing only in letter case may be merged or reported separately", "Remove(i) with i out of range is not exercised"},
 		Spaces: func(tier string) []fw.Space {
 			trees := c18Trees()
@@ -650,7 +662,7 @@ func init() {
 		},
 		Bounds: func(tier string) string {
 			if tier == "thorough" {
-				return "all collection histories of length<=5 over 13 operations; template piece sequences len<=4; 2.9k expression trees x 4 styles"
+				return "all collection histories of length<=5 over 15 operations; template piece sequences len<=4; 2.9k expression trees x 4 styles"
 			}
 			return "all collection histories of length<=4; template piece sequences len<=3; 2.9k expression trees x 4 styles"
 		},
